@@ -283,6 +283,29 @@ class BA:
                 if self.b.blocks[i]["term"]["t"] == "call" and not self.b.is_cleanup(i)
                 and call_matches(self.b.blocks[i]["term"], rx)]
 
+    def calls_deep(self, rx, prog, depth=2):
+        """Blocks that call something matching rx, directly or through a local wrapper on all of
+        whose entry->return paths such a call lies (the wrapper 'is' the call; Min et al.)."""
+        if isinstance(rx, str):
+            rx = re.compile(rx)
+        out = set(self.calls(rx))
+        if depth <= 0:
+            return sorted(out)
+        for i in self.all_calls():
+            if i in out:
+                continue
+            t = self.b.blocks[i]["term"]
+            for p in callee_paths(t):
+                cb = prog.bodies.get(p)
+                if cb is None or cb.key == self.b.key:
+                    continue
+                cba = BA.of(cb)
+                inner = cba.calls_deep(rx, prog, depth - 1)
+                if inner and cba.path([0], cba.returns(), avoid=frozenset(inner), incl=True) is None:
+                    out.add(i)
+                break
+        return sorted(out)
+
     def all_calls(self):
         return [i for i in sorted(self.live)
                 if self.b.blocks[i]["term"]["t"] == "call" and not self.b.is_cleanup(i)]
